@@ -3274,6 +3274,16 @@ class StateEngine(object):
                 in parallel. A value of zero means unbounded.
                 """
                 max_concurrency = state.get("MaxConcurrency", 0)
+                if (isinstance(max_concurrency, bool)
+                    or not isinstance(max_concurrency, int)
+                    or max_concurrency < 0):
+                    # (a negative block size would launch iterations that can
+                    # never be joined, so fail the state instead)
+                    raise ValueError(
+                        "MaxConcurrency must be a non-negative integer, not {}".format(
+                            max_concurrency
+                        )
+                    )
                 if max_concurrency == 0:
                     max_concurrency = length
 
